@@ -645,6 +645,142 @@ def _(T):
 
 
 # ----------------------------------------------------------------------------
+# priors.py: constants of generate_prior, the SourceProperties setters and the sky priors
+# ----------------------------------------------------------------------------
+
+def _const_or_pi(node, src):
+    """('q', Fraction) | ('pi', Fraction multiple) | None for non-constant expressions"""
+    try:
+        return ("q", num(node, src))
+    except Miss:
+        pass
+    try:
+        return ("pi", pi_multiple(node, src))
+    except Miss:
+        return None
+
+
+@extractor("prior_consts")
+def _(T):
+    tree, src = T["priors.py"]
+    gp = find_func(tree, "generate_prior", cls="SourceProperties")
+    calls = {}
+    for node in ast.walk(gp):
+        if isinstance(node, ast.Call) and isinstance(node.func, ast.Attribute) and node.func.attr in (
+                "set_gaussian_prior", "set_uniform_prior", "set_truncated_gaussian_prior") and node.args \
+                and isinstance(node.args[0], ast.Constant):
+            name = node.args[0].value
+            args = [_const_or_pi(a, src) for a in node.args[1:]]
+            kw = {k.arg: _const_or_pi(k.value, src) for k in node.keywords}
+            calls.setdefault(name, []).append((node.func.attr, args, kw))
+
+    def one(name):
+        if name not in calls:
+            raise Miss(f"no prior call for {name}")
+        first = calls[name][0]
+        if any(c != first for c in calls[name]):
+            raise Miss(f"inconsistent prior calls for {name}")
+        return first
+
+    def q(x):
+        if x is None or x[0] != "q":
+            raise Miss("expected a numeric constant")
+        return x[1]
+    out = {}
+    m, a, kw = one("xc")
+    m2, a2, kw2 = one("yc")
+    if m != "set_gaussian_prior" or m2 != m or q(a[1]) != q(a2[1]):
+        raise Miss("xc/yc priors")
+    out["posSigma"] = fr(q(a[1]))
+    lows = set()
+    for nm in ("r_eff", "r_eff_1", "r_eff_2"):
+        m, a, kw = one(nm)
+        if m != "set_truncated_gaussian_prior" or "high" in kw:
+            raise Miss(f"{nm} prior shape")
+        lows.add(q(kw["low"]))
+    if len(lows) != 1:
+        raise Miss("r_eff lower bounds differ")
+    out["rEffLow"] = fr(lows.pop())
+    es = {(q(one(nm)[1][0]), q(one(nm)[1][1])) for nm in ("ellip", "ellip_1", "ellip_2")}
+    if len(es) != 1 or any(one(nm)[0] != "set_uniform_prior" for nm in ("ellip", "ellip_1", "ellip_2")):
+        raise Miss("ellip priors")
+    lo, hi = es.pop()
+    out["ellipLow"], out["ellipHigh"] = fr(lo), fr(hi)
+    m, a, kw = one("theta")
+    if m != "set_uniform_prior" or a[1] is None or a[1][0] != "pi":
+        raise Miss("theta prior")
+    out["thetaLow"], out["thetaHighPi"] = fr(q(a[0])), fr(a[1][1])
+    # "n" is set twice: uniform for the single-component types, truncated normal for sersic_exp
+    uni = [c for c in calls["n"] if c[0] == "set_uniform_prior"]
+    tru = [c for c in calls["n"] if c[0] == "set_truncated_gaussian_prior"]
+    if len(uni) != 1 or len(tru) != 1:
+        raise Miss("n priors")
+    out["nLow"], out["nHigh"] = fr(q(uni[0][1][0])), fr(q(uni[0][1][1]))
+    fs = {(q(one(nm)[1][0]), q(one(nm)[1][1])) for nm in ("f_1", "f_ps")}
+    if len(fs) != 1:
+        raise Miss("fraction priors")
+    lo, hi = fs.pop()
+    out["fracLow"], out["fracHigh"] = fr(lo), fr(hi)
+    m, a1, kw1 = one("n_1")
+    m, a2_, kw2_ = one("n_2")
+    for kwx in (kw1, kw2_, tru[0][2]):
+        if fr(q(kwx["low"])) != out["nLow"] or fr(q(kwx["high"])) != out["nHigh"]:
+            raise Miss("composite index bounds differ from the uniform index bounds")
+    if (q(tru[0][1][0]), q(tru[0][1][1])) != (q(a1[0]), q(a1[1])):
+        raise Miss("sersic_exp n prior differs from n_1")
+    out["n1Loc"], out["n1Scale"] = fr(q(a1[0])), fr(q(a1[1]))
+    out["n2Loc"], out["n2Scale"] = fr(q(a2_[0])), fr(q(a2_[1]))
+    # split factor: r_loc1 = r / c, r_loc2 = r * c
+    facs = {}
+    for node in ast.walk(gp):
+        if isinstance(node, ast.Assign) and len(node.targets) == 1 and isinstance(node.targets[0], ast.Name) \
+                and node.targets[0].id in ("r_loc1", "r_loc2") and isinstance(node.value, ast.BinOp):
+            facs[node.targets[0].id] = (type(node.value.op).__name__, num(node.value.right, src))
+    if facs.get("r_loc1", (None,))[0] != "Div" or facs.get("r_loc2", (None,))[0] != "Mult" or facs["r_loc1"][1] != facs["r_loc2"][1]:
+        raise Miss("component radius split")
+    out["splitFactor"] = fr(facs["r_loc1"][1])
+    # error factor in the setters: k * np.sqrt(guess)
+    ks = set()
+    for fn_name in ("set_flux_guess", "set_r_eff_guess"):
+        fn = find_func(tree, fn_name, cls="SourceProperties")
+        for node in ast.walk(fn):
+            if isinstance(node, ast.BinOp) and isinstance(node.op, ast.Mult) and isinstance(node.right, ast.Call) \
+                    and _dotted(node.right.func).endswith("sqrt"):
+                ks.add(num(node.left, src))
+    if len(ks) != 1:
+        raise Miss("error factors of the setters")
+    out["errFactor"] = fr(ks.pop())
+    # sky slope factor
+    tp = find_func(tree, "__init__", cls="TiltedPlaneSkyPrior")
+    sl = set()
+    for node in ast.walk(tp):
+        if isinstance(node, ast.Call) and isinstance(node.func, ast.Attribute) and node.func.attr == "update_prior" \
+                and isinstance(node.args[0], ast.Constant) and node.args[0].value in ("sky_x_sl", "sky_y_sl"):
+            w = node.args[2]
+            if not (isinstance(w, ast.BinOp) and isinstance(w.op, ast.Mult)) or num(node.args[1], src) != 0:
+                raise Miss("sky slope prior shape")
+            sl.add(num(w.left, src))
+    if len(sl) != 1:
+        raise Miss("sky slope factor")
+    out["slopeFactor"] = fr(sl.pop())
+    # do the bounded helpers hand the base support to the affine transform and validate arguments?
+    masked = []
+    for hname in ("set_uniform_prior", "set_truncated_gaussian_prior"):
+        fn = find_func(tree, hname, cls="BasePrior")
+        has_domain = has_validate = False
+        for node in ast.walk(fn):
+            if isinstance(node, ast.Call) and _dotted(node.func).endswith("AffineTransform"):
+                has_domain |= any(k.arg == "domain" for k in node.keywords)
+            if isinstance(node, ast.Call) and _dotted(node.func).endswith("TransformedDistribution"):
+                has_validate |= any(k.arg == "validate_args" and isinstance(k.value, ast.Constant) and k.value.value is True for k in node.keywords)
+        masked.append(has_domain and has_validate)
+    if masked[0] != masked[1]:
+        raise Miss("the two bounded helpers differ in support handling")
+    out["supportMasked"] = bool(masked[0])
+    return out
+
+
+# ----------------------------------------------------------------------------
 # Lean emission
 # ----------------------------------------------------------------------------
 
@@ -671,6 +807,7 @@ def emit(c):
     A("import PysersicModel.IO.Results")
     A("import PysersicModel.Prob.Loss")
     A("import PysersicModel.Render.Renderers")
+    A("import PysersicModel.Prob.Prior")
     A("")
     A("namespace Pysersic.Gen")
     A("")
@@ -742,6 +879,15 @@ def emit(c):
     A(f"def nAxLo : Q := {lean_q(rc['n_ax'][0])}")
     A(f"def nAxHi : Q := {lean_q(rc['n_ax'][1])}")
     A(f"def nAxNum : Nat := {rc['n_ax'][2][0]}")
+    A("")
+    pc = c["prior_consts"]
+    A("/-- constants of generate_prior, the SourceProperties setters and the sky priors (priors.py) -/")
+    A("def priorConsts : Prob.PriorConsts :=")
+    keys = ["posSigma", "rEffLow", "ellipLow", "ellipHigh", "thetaLow", "thetaHighPi", "nLow", "nHigh", "fracLow", "fracHigh",
+            "splitFactor", "n1Loc", "n1Scale", "n2Loc", "n2Scale", "errFactor", "slopeFactor"]
+    A("  { " + ", ".join(f"{k} := {lean_q(pc[k])}" for k in keys) + " }")
+    A("/-- do the bounded helpers mask values outside the support (AffineTransform(domain=…) + validate_args=True)? -/")
+    A(f"def priorSupportMasked : Bool := {b(pc['supportMasked'])}")
     A("")
     A("end Pysersic.Gen")
     return "\n".join(L) + "\n"
